@@ -484,14 +484,15 @@ func Build(defs []*StoreDef) *Schema {
 				} else {
 					st.Sym[f.Name] = st.Store.AddSymbol(f.Name, ast.NodeTypeString, f.Prefix...)
 				}
-			case KI32, KI64:
-				st.Sym[f.Name] = st.Store.AddSymbol(f.Name, ast.NodeTypeInt64, f.Prefix...)
-			case KF64:
-				st.Sym[f.Name] = st.Store.AddSymbol(f.Name, ast.NodeTypeFloat64, f.Prefix...)
-			case KBool:
-				st.Sym[f.Name] = st.Store.AddSymbol(f.Name, ast.NodeTypeBool, f.Prefix...)
-			case KTime:
-				st.Sym[f.Name] = st.Store.AddSymbol(f.Name, ast.NodeTypeDatetime, f.Prefix...)
+			case KI32, KI64, KF64, KBool, KTime:
+				nt := map[Kind]ast.NodeType{KI32: ast.NodeTypeInt64, KI64: ast.NodeTypeInt64, KF64: ast.NodeTypeFloat64, KBool: ast.NodeTypeBool, KTime: ast.NodeTypeDatetime}[f.Kind]
+				if f.Private && len(f.Prefix) == 0 {
+					sym := st.Store.NewEntitySymbol(f.Name, nt)
+					st.Store.AddEntitySymbol(sym)
+					st.Sym[f.Name] = sym
+				} else {
+					st.Sym[f.Name] = st.Store.AddSymbol(f.Name, nt, f.Prefix...)
+				}
 			case KList, KLinks:
 				if target != nil {
 					st.Sym[f.Name] = st.Store.AddFkSetSymbol(f.Name, target)
